@@ -977,9 +977,12 @@ impl Session {
         }
 
         // Increment packet counter
+        // The authentication preamble is packet 0 of the scheme, so the first session
+        // packet is packet 1 (fetch_add returns the previous value).
         let pkt = self
             .pkt_counter
-            .fetch_add(1, std::sync::atomic::Ordering::SeqCst);
+            .fetch_add(1, std::sync::atomic::Ordering::SeqCst)
+            + 1;
         vp!("write_with_padding.after_counter");
         let padding_factory = {
             let padding_guard = self.padding.read().await;
